@@ -13,7 +13,7 @@ VERIF = os.path.dirname(os.path.dirname(os.path.abspath(__file__)))
 PY = "/venv/bin/python"
 # not caught, each for a stated reason (meta.json/history, DESIGN 10.4)
 ALL = ["C07", "C08", "C09", "C11", "C12", "C13", "C15", "C16", "C17", "C18", "C19"]
-EXPECTED_MISS = {"C15-w2seed1", "C08-w3seed1", "C11-w3seed2", "C17-w3seed2", "C19-w4seed4"}
+EXPECTED_MISS = {"C15-w2seed1", "C08-w3seed1", "C11-w3seed2", "C17-w3seed2", "C19-w4seed4", "C08-w6seed2"}
 
 
 def main():
@@ -34,7 +34,7 @@ def main():
                 print("%-14s PATCH DOES NOT APPLY to the current tree (%s)" % (name, (p.stdout + p.stderr).strip().splitlines()[:1]))
                 bad += 1
                 continue
-            if name.startswith("refactor-"):
+            if name.startswith("refactor"):
                 # behaviour-preserving refactoring: NO check may alarm
                 alarms = {}
                 for c_ in ALL:
